@@ -36,14 +36,22 @@ def comma(xs): return "".join(x + "," for x in xs)
 def onoff(v): return "1" if v == DeviceState.ON else "0"
 
 
+def tenths(x):
+    """a float that is meant to be a number of tenths: the count when x is exactly that count / 10, else the float itself"""
+    try:
+        t = round(x * 10)
+        return str(t) if x == t / 10 else "%r(not a whole number of tenths)" % x
+    except Exception: return repr(x)
+
+
 def show_response(kind, r):
     s = "1" if r.successful else "0"
     if kind == 11:
         return "state:" + comma([s, onoff(r.state), r.time_left, r.time_on, r.auto_shutdown, str(r.power_consumption),
-                                 str(round(r.electric_current * 10))])
+                                 tenths(r.electric_current)])
     if kind == 9: return "state:" + comma([s, str(r.position), r.direction.name])
     if kind == 10:
-        return "state:" + comma([s, onoff(r.state), r.mode.name, r.fan_level.name, str(round(r.temperature * 10)),
+        return "state:" + comma([s, onoff(r.state), r.mode.name, r.fan_level.name, tenths(r.temperature),
                                  str(r.target_temperature), "1" if r.swing == ThermostatSwing.ON else "0",
                                  r.remote_id.encode().hex()])
     return "ok:" + s
@@ -229,7 +237,7 @@ def rand_args(rnd, kind):
         else: ds = [rnd.randrange(7) for _ in range(rnd.randrange(2, 5))]; form = "list"
         if form == "set": ds = sorted(set(ds))
         return [rand_clock(rnd, .25), rand_clock(rnd, .15), ds, form]
-    if kind == 8: return [rnd.choice([0, 1, 50, 99, 100, rnd.randrange(101)])]
+    if kind == 8: return [rnd.choice([0, 1, 50, 99, 100, rnd.randrange(101), rnd.randrange(101), 101, 255, 256, 4095, 4096, 40000, 65535, 65536])]
     if kind == 12: return rand_breeze_args(rnd)
     return []
 
@@ -435,6 +443,18 @@ def _bindable(p):
     finally: s.close()
 
 
+WELL_KNOWN_PORTS = [20002, 10002, 20003, 10003]
+def well_known_ports():
+    """the library's default broadcast ports, if this process can have them all (free and reserved among the running checks)"""
+    got = []
+    for p in WELL_KNOWN_PORTS:
+        if p in _MINE or (_bindable(p) and _reserve(p)):
+            if p not in _MINE: _MINE.insert(0, p)
+            got.append(p)
+    if len(got) == 4 and all(_bindable(p) for p in got): return list(WELL_KNOWN_PORTS)
+    return None
+
+
 def free_udp_ports(n):
     """n UDP ports that are free now, below the kernel's ephemeral range (32768+) so that no outgoing socket lands on them, and
     reserved for this process among all running checks: a probe bind that fails on one of them is then the bridge under test (or
@@ -452,17 +472,17 @@ def free_udp_ports(n):
             if len(_MINE) >= 1024: raise lib.BuildError("no free UDP port among %d reserved ones" % len(_MINE))
             grow(); _NEXT[0] = len(_MINE) - 1
         p = _MINE[_NEXT[0] % len(_MINE)]; _NEXT[0] += 1; scanned += 1
-        if p not in out and _bindable(p): out.append(p)
+        if p not in out and p not in WELL_KNOWN_PORTS and _bindable(p): out.append(p)
     return out
 
 
-async def feed_bridge(n_ports, events, raising=(), show=None, sentinel=None, serial=False, restarts=0):
+async def feed_bridge(n_ports, events, raising=(), show=None, sentinel=None, serial=False, restarts=0, ports=None, during_start=None):
     """events: [(port index, datagram bytes)] sent in order from one socket in paced bursts, then one sentinel per port as
     delivery barrier.  Returns (callback log [rendered device], loop-exception-handler calls, warnings).
     `raising`: indices of callback invocations (global count) on which the user's callback raises."""
     import socket, warnings
     from aioswitcher.bridge import SwitcherBridge
-    ports = free_udp_ports(n_ports); log = []; handler = []; seen_sentinel = set()
+    ports = list(ports) if ports else free_udp_ports(n_ports); log = []; handler = []; seen_sentinel = set()
     loop = asyncio.get_running_loop()
     old = loop.get_exception_handler()
     loop.set_exception_handler(lambda l, ctx: handler.append(type(ctx.get("exception")).__name__))
@@ -471,11 +491,28 @@ async def feed_bridge(n_ports, events, raising=(), show=None, sentinel=None, ser
             seen_sentinel.add(dev.name); return
         k = len(log); log.append(show(dev))
         if k in raising: raise KeyError("user callback failure %d" % k)
-    bridge = SwitcherBridge(cb, ports)
+    bridge = SwitcherBridge(cb, ports) if ports != WELL_KNOWN_PORTS else SwitcherBridge(cb)        # the default port list of the library
     tx = socket.socket(socket.AF_INET, socket.SOCK_DGRAM)
     with warnings.catch_warnings(record=True) as w:
         warnings.simplefilter("always")
-        await bridge.start()
+        if during_start:
+            # a device keeps broadcasting while the bridge is still opening its ports: from the moment a port is bound (a probe bind
+            # fails) every datagram sent to it counts.  `during_start` = list of datagrams; the sender runs in this loop, between the
+            # bridge's own awaits
+            sent_early = []
+            async def early():
+                k = 0
+                while k < len(during_start) and not bridge.is_running:
+                    if not _bindable(ports[0]):
+                        tx.sendto(during_start[k], ("127.0.0.1", ports[0])); sent_early.append(k); k += 1
+                    await asyncio.sleep(0)
+            task = loop.create_task(early())
+            await asyncio.sleep(0)
+            await bridge.start()
+            await task
+            feed_bridge.sent_early = sent_early
+        else:
+            await bridge.start()
         try:
             for _ in range(restarts):               # the same bridge object stopped and started again before anything is sent
                 await bridge.stop()
